@@ -151,4 +151,19 @@ theorem step_obs_shaped (s : State) (hs : Grid.shaped s.board 9 9 = true) (r c d
   rw [maskOf_eq_legalTable _ hb]
   exact legalTable_shaped _
 
+/-! ### audit r6 #10: feasibility composed along a play -/
+
+theorem after_take_succ {S A T : Type} (f : S → A → S × T) : ∀ (s : S) (as : List A) (k : Nat) (hk : k < as.length),
+    EpRun.after f s (as.take (k + 1)) = (f (EpRun.after f s (as.take k)) as[k]).1 := by
+  intro s as
+  induction as generalizing s with
+  | nil => intro k hk; simp at hk
+  | cons a as ih =>
+    intro k hk
+    cases k with
+    | zero => simp [EpRun.after]
+    | succ k =>
+      simp only [List.take_succ_cons, EpRun.after, List.getElem_cons_succ]
+      exact ih _ k (by simpa using hk)
+
 end Sudoku
